@@ -43,6 +43,7 @@ type scenario struct {
 	Traffic   bool     `json:"traffic,omitempty"` // assign: the router runs and routes datagrams to still free addresses while NICs join
 	EarlyBind bool     `json:"earlyBind,omitempty"` // a wildcard port-0 bind (closed again) before the host is attached to the router
 	NilIPPort bool     `json:"nilIPPort,omitempty"` // binds to the wildcard address are written as &net.UDPAddr{Port: p} (nil IP)
+	Victim   int       `json:"victim,omitempty"` // nearFull: afterwards the range is filled completely (a port 0 bind fails), the wildcard socket on this port is closed, and a port 0 bind must get exactly this port
 	NearFull int       `json:"nearFull"` // leave only this many ephemeral ports free before the workers start (0 = off)
 }
 
@@ -80,6 +81,11 @@ func gen(r *harn.Rng, tier string) interface{} {
 					ns.Static = append(ns.Static, "172.16.0.9") // outside the subnet
 				}
 			}
+			if n >= 250 && i == 0 && r.Bool(0.6) {
+				// one static address at the top of (or high in) the automatic range, then hundreds of
+				// automatic ones: the counter has to step over it, and over the end of the range
+				ns.Static = []string{fmt.Sprint(r.Pick(254, 254, 253, 200, 255))}
+			}
 			sc.NICs = append(sc.NICs, ns)
 		}
 		return sc
@@ -100,6 +106,7 @@ func gen(r *harn.Rng, tier string) interface{} {
 	}
 	if !sc.Sweep && r.Bool(0.03) {
 		sc.NearFull = r.Pick(2, 3, 4, 6)
+		sc.Victim = r.Pick(0, 5999, 5999, 5000, 5998, 5432)
 		nw = r.Pick(2, 3)
 	}
 	ips := append([]string{"", "0.0.0.0", "127.0.0.1", "10.0.0.99"}, sc.HostIPs...)
@@ -731,6 +738,57 @@ func runBind(env *simrt.Env, sc *scenario) {
 	env.Join(hs...)
 	if env.Failed() {
 		return
+	}
+	if sc.NearFull > 0 && sc.Victim != 0 {
+		// fill the range completely: the last port 0 bind fails
+		own := map[int]*sock{} // wildcard sockets the driver opened itself (no worker closes them), by port
+		for _, k := range prefilled {
+			var port int
+			fmt.Sscanf(k, "*|%d", &port)
+			for _, sk := range allSocks {
+				if sk.ip == "*" && sk.port == port && own[port] == nil {
+					own[port] = sk
+				}
+			}
+		}
+		full := false
+		for i := 0; i < 1100 && !full; i++ {
+			c, err := host.ListenUDP("udp", &net.UDPAddr{IP: net.IPv4zero, Port: 0})
+			if err != nil {
+				full = true
+				break
+			}
+			sk := &sock{ip: "*", port: c.LocalAddr().(*net.UDPAddr).Port, conn: c}
+			allSocks = append(allSocks, sk)
+			own[sk.port] = sk
+		}
+		if !full {
+			env.Fail("C13/port-zero-bound-beyond-range", "more than 1000 wildcard sockets were bound with port 0 in 5000-5999")
+			return
+		}
+		victim := own[sc.Victim]
+		if victim == nil {
+			for _, sk := range own {
+				if victim == nil || sk.port > victim.port {
+					victim = sk
+				}
+			}
+		}
+		if victim != nil {
+			_ = victim.conn.Close()
+			c, err := host.ListenUDP("udp", &net.UDPAddr{IP: net.IPv4zero, Port: 0})
+			if err != nil {
+				env.Fail("C13/bind-refused", "every port of 5000-5999 was taken and a port 0 bind had failed; then the wildcard socket on port %d was closed, yet the next port 0 bind failed too (%v): closing a socket frees its address", victim.port, err)
+				return
+			}
+			got := c.LocalAddr().(*net.UDPAddr).Port
+			allSocks = append(allSocks, &sock{ip: "*", port: got, conn: c})
+			if got != victim.port {
+				env.Fail("C13/address-in-use-bound", "every port of 5000-5999 was taken except %d (just closed); a port 0 bind on the wildcard address received port %d", victim.port, got)
+				return
+			}
+			env.Probe("freed-port-found-after-exhaustion")
+		}
 	}
 	for _, s := range allSocks {
 		if s.conn != nil {
